@@ -814,7 +814,9 @@ def run(rep):
                 stats[k] = stats.get(k, 0) + n
 
             if lops:
-                fsops[json.dumps(lops)] = fsops.get(json.dumps(lops), 0) + 1
+                k = ' '.join(f'{kind}({name}{"" if n is None else f", {n} bytes"})' for kind, name, n in lops)
+
+                fsops[k] = fsops.get(k, 0) + 1
 
             if lv is not None:
                 viols.append((depth, ci, hist, lv, True))
